@@ -585,7 +585,8 @@ pub(crate) fn add_contdist_sample<W, R: SeedableRng + RngCore, T>(
             let d0 = to_native!(a0, XContinuousDistribution);
             let Some(i1) = to_primitive!(a1, Int).to_usize() else { return xerr(ManagedXError::new("count out of bounds", rt)?); };
             rt.limits.check_permission(&builtin_permissions::RANDOM)?;
-            rt.can_allocate(i1*size_of::<usize>())?;
+            let Some(bytes) = i1.checked_mul(size_of::<usize>()).filter(|b| *b <= isize::MAX as usize) else { return xerr(ManagedXError::new("count out of bounds", rt)?); };
+            rt.can_allocate(bytes)?;
             let nums = d0.sample(i1, rt.stats.borrow_mut().get_rng());
             let nums = xraise!(nums.into_iter().map(|v| {
                 let v = forward_err!(XValue::float(v, &rt)?);
